@@ -123,16 +123,22 @@ def _register_scripted(path):
         if log:
             _append(log, json.dumps(obj))
 
-    def lookup(table, inst):
-        """exact instance name, else the longest step-template name T with inst == T or inst = T_<combo>"""
+    def lookup(table, inst, cwd=None):
+        """exact instance name, else the longest step-template name T with inst == T or inst = T_<combo>,
+        else the template named by the workspace path (<out>/T or <out>/T/<combo>)"""
         t = cfg.get(table, {})
         if inst in t:
             return t[inst]
         best = None
-        for k, v in cfg.get(table + "_by_prefix", {}).items():
+        bp = cfg.get(table + "_by_prefix", {})
+        for k, v in bp.items():
             if inst == k or (inst or "").startswith(k + "_"):
                 if best is None or len(k) > len(best[0]):
                     best = (k, v)
+        if best is None and cwd:
+            for cand in (os.path.basename(os.path.dirname(cwd)), os.path.basename(cwd)):
+                if cand in bp:
+                    return bp[cand]
         return best[1] if best else None
 
     class Scripted(object):
@@ -161,17 +167,19 @@ def _register_scripted(path):
             return sched, script, rscript
 
         def submit(self, step, path, cwd, job_map=None, env=None):
-            n = st["nsub"].get(step.name, 0)
-            st["nsub"][step.name] = n + 1
-            outs = lookup("submit", step.name) or []
+            # under --hashws step.name is the digest of the parameter combination (shared by several
+            # instances): instances are told apart by their workspace `cwd`
+            n = st["nsub"].get(cwd, 0)
+            st["nsub"][cwd] = n + 1
+            outs = lookup("submit", step.name, cwd) or []
             ok = outs[n] if n < len(outs) else True
             if ok:
                 j = st["next"]
                 st["next"] += 1
-                st["job_inst"][str(j)] = step.name
-                rec({"call": "submit", "inst": step.name, "restart": path.endswith(".restart.sh"), "job": j})
+                st["job_inst"][str(j)] = (step.name, cwd)
+                rec({"call": "submit", "inst": step.name, "cwd": cwd, "restart": path.endswith(".restart.sh"), "job": j})
                 return SubmissionRecord(SubmissionCode.OK, 0, str(j))
-            rec({"call": "submit", "inst": step.name, "restart": path.endswith(".restart.sh"), "job": None})
+            rec({"call": "submit", "inst": step.name, "cwd": cwd, "restart": path.endswith(".restart.sh"), "job": None})
             return SubmissionRecord(SubmissionCode.ERROR, 1)
 
         def check_jobs(self, joblist):
@@ -180,10 +188,10 @@ def _register_scripted(path):
             st["nq"] += 1
             out = {}
             for j in joblist:
-                inst = st["job_inst"].get(str(j))
-                seq = lookup("reports", inst)
-                k = st["nrep"].get(inst, 0)
-                st["nrep"][inst] = k + 1
+                inst, cwd = st["job_inst"].get(str(j), (None, None))
+                seq = lookup("reports", inst, cwd)
+                k = st["nrep"].get(cwd, 0)
+                st["nrep"][cwd] = k + 1
                 if str(j) in st["cancelled"] and cfg.get("after_cancel"):
                     v = cfg["after_cancel"]          # the scheduler honours cancel_jobs
                 elif seq:
